@@ -49,7 +49,17 @@ def kept_twins(prop: str) -> list:
     return out
 
 
+def mechanical_twins(prop: str) -> list:
+    from . import autotwins
+
+    return [{"id": name, "prop": prop, "file": "", "rules": [], "what": "mechanically generated behaviour-preserving variant of the whole package", "gen": name, "kind": "twin"} for name in autotwins.GENERATORS]
+
+
 def _apply(project_sources: dict, m: dict):
+    if "gen" in m:
+        from . import autotwins
+
+        return autotwins.GENERATORS[m["gen"]](dict(project_sources))
     if "diff" in m:
         from .udiff import apply_unified
 
@@ -104,7 +114,7 @@ def run_for_check(prop: str, project: Project, tier: str):
         twins = []
     else:
         breaking = breaking + seeds
-        twins = twins + kept_twins(prop)
+        twins = twins + kept_twins(prop) + mechanical_twins(prop)
     t0 = time.time()
     jobs = [(prop, m, sources) for m in breaking + twins]
     results = {}
